@@ -32,7 +32,7 @@ pub fn gen_project(g: &mut Gen, unique_names: bool) -> Project {
     for gi in 0..ng {
         let mut name = NAMES[g.rng.below(NAMES.len())].to_string();
         if unique_names { let mut k = 0; while used.iter().any(|u| u.to_lowercase() == name.to_lowercase()) { k += 1; name = format!("{} {}", NAMES[g.rng.below(NAMES.len())], k); } used.push(name.clone()); }
-        if gi == 0 && !unique_names && g.rng.chance(1, 8) { name = String::new(); }
+        if !unique_names && g.rng.chance(1, if gi == 0 { 8 } else { 10 }) { name = String::new(); }  // a json project may hold a nameless group anywhere; the writer prints `@ ` for it
         let nr = if name.is_empty() { 1 + g.rng.below(3) } else { g.rng.below(4) };
         let rules: Vec<String> = (0..nr).map(|_| { let p = if g.rng.chance(1, 2) { Profile::Basic } else { Profile::Tame }; g.rule(p).trim().to_string() }).filter(|r| !r.is_empty() && !r.starts_with('@') && !r.starts_with('#')).collect();
         let nd = g.rng.below(4);
